@@ -410,8 +410,8 @@ def units(w):
                 objs.append(V.object_of(it, ents, f"o{i}"))
             for i in range(depth - 1):
                 objs[i].fields["value"].entries.append(["_proto_", objs[i + 1]])
-            if tail == "cycle":
-                objs[-1].fields["value"].entries.append(["_proto_", objs[0]])        # the chain closes on itself
+            if tail and tail.startswith("cycle"):
+                objs[-1].fields["value"].entries.append(["_proto_", objs[int(tail[5:] or 0)]])   # the chain runs into a cycle (through the start or not)
             elif tail == "scalar":
                 objs[-1].fields["value"].entries.append(["_proto_", V.int(it, "notanobject")])
             recv = objs[0]
@@ -438,9 +438,9 @@ def units(w):
         return post
     for depth in (1, 2, 3, 4, 5):
         for where in range(-1, depth):
-            for tail in (None, "cycle", "scalar"):
+            for tail in [None, "scalar"] + [f"cycle{k}" for k in range(depth)]:
                 U.append(Unit("nodes.py::NodeDerefInvoke.evaluate", s_method(depth, where, tail), p_method(depth, where),
-                              name=f"nodes.py::NodeDerefInvoke.evaluate[chain {depth}, member at {where}" + (f", chain ends in a {tail}" if tail else "") + "]",
+                              name=f"nodes.py::NodeDerefInvoke.evaluate[chain {depth}, member at {where}" + (f", chain ends in a {tail}" if tail == "scalar" else f", chain runs into a cycle at {tail[5:]}" if tail else "") + "]",
                               prepare=install, bounded="prototype chains of depth <= 3 (<= 5 in the thorough tier)", replay=replay_prog,
                               config={"max_unroll": 8, "unroll_overflow_is_nontermination": True}))
                 U[-1].thorough_only = depth > 3
@@ -455,8 +455,8 @@ def units(w):
                 objs.append(V.object_of(it, ents, f"o{i}"))
             for i in range(depth - 1):
                 objs[i].fields["value"].entries.append(["_proto_", objs[i + 1]])
-            if tail == "cycle":
-                objs[-1].fields["value"].entries.append(["_proto_", objs[0]])
+            if tail and tail.startswith("cycle"):
+                objs[-1].fields["value"].entries.append(["_proto_", objs[int(tail[5:] or 0)]])
             elif tail == "scalar":
                 objs[-1].fields["value"].entries.append(["_proto_", V.int(it, "notanobject")])
             if target == "resolveItem":
@@ -480,9 +480,9 @@ def units(w):
     for target, qual in (("NodeDeref", "nodes.py::NodeDeref.evaluate"), ("resolveItem", "values.py::ValueObject.resolveItem")):
         for depth in (1, 2, 3, 4, 5):
             for where in range(-1, depth):
-                for tail in (None, "cycle", "scalar"):
+                for tail in [None, "scalar"] + [f"cycle{k}" for k in range(depth)]:
                     U.append(Unit(qual, s_read(depth, where, tail, target), p_read(target),
-                                  name=f"{qual}[chain {depth}, member at {where}" + (f", chain ends in a {tail}" if tail else "") + "]",
+                                  name=f"{qual}[chain {depth}, member at {where}" + (f", chain ends in a {tail}" if tail == "scalar" else f", chain runs into a cycle at {tail[5:]}" if tail else "") + "]",
                                   prepare=install, bounded="prototype chains of depth <= 3 (<= 5 in the thorough tier)", replay=replay_prog, allowed=(),
                                   config={"max_unroll": 8, "unroll_overflow_is_nontermination": True}))
                     U[-1].thorough_only = depth > 3
@@ -607,7 +607,7 @@ def bounded(tier, seed):
     fails, ev = [], 0
     import signal
 
-    class _Alarm(Exception):
+    class _Alarm(BaseException):
         pass
 
     def _raise(*a):
